@@ -278,9 +278,18 @@ FairSpec == Spec /\ \A p \in 1..NP : \A t \in 0..NT : WF_vars(Step(p, t))
 ExecCount(j) == Cardinality({i \in 1..Len(execLog) : execLog[i][2] = j})
 Executor(j) == execLog[CHOOSE i \in 1..Len(execLog) : execLog[i][2] = j][1]
 
-\* no job is assigned twice / executed twice
-AssignedOnce == \A j \in Jobs : Len(asg[j]) <= 1
-AtMostOnce == \A j \in Jobs : ExecCount(j) <= 1
+\* A restart pattern that names a status which the processes of THIS run produce (ASSIGNED; COMPLETE; FAILED while
+\* jobs fail) lets a process re-open, by the statement's last clause, a job that another live process has assigned or
+\* finished.  Across processes a job may then be assigned/executed more than once; within one run (process) never:
+\* the cursor of the assignment loop moves past every job it examines.
+LivePattern == "ASSIGNED" \in c.rstat \/ "COMPLETE" \in c.rstat \/ ("FAILED" \in c.rstat /\ c.fail # {})
+\* no job is assigned twice / executed twice ...
+AssignedOnce == LivePattern \/ \A j \in Jobs : Len(asg[j]) <= 1
+AtMostOnce == LivePattern \/ \A j \in Jobs : ExecCount(j) <= 1
+\* ... and whatever the pattern, never twice by the same run
+AssignedOncePerRun == \A j \in Jobs : \A i, k \in 1..Len(asg[j]) : asg[j][i] = asg[j][k] => i = k
+AtMostOncePerRun == \A i, k \in 1..Len(execLog) : execLog[i] = execLog[k] => i = k
+Executors(j) == {execLog[i][1] : i \in {k \in 1..Len(execLog) : execLog[k][2] = j}}
 
 \* at every instant the job file or its backup is a complete job list ...
 FileOrBackupComplete == file.ok \/ backup.ok
@@ -301,7 +310,8 @@ NoLostJob ==
     /\ file.ok /\ Len(file.jobs) = NJ
     /\ \A j \in Jobs :
          IF Startable(c.init[j])
-         THEN \/ ExecCount(j) = 1 /\ file.jobs[j] = Rec(Result(j), Executor(j), Executor(j))
+         THEN \/ /\ ExecCount(j) = 1 \/ (LivePattern /\ ExecCount(j) >= 1)
+                 /\ \E e \in Executors(j) : file.jobs[j] = Rec(Result(j), e, e)
               \/ ExecCount(j) = 0 /\ file.jobs[j] = c.init[j] /\ MaxJobsStoppedAll
          ELSE TRUE
 \* jobs not named by the restart pattern (and not AVAILABLE) are never touched
@@ -335,7 +345,7 @@ Proj == [pc |-> [p \in 1..NP |-> [t \in 1..(NT + 1) |-> pc[p][t - 1]]],
 EmitTransition == (Emit /\ ~AllStopped) => PrintT(ToJson([c |-> CfgJson, from |-> Proj, to |-> Proj', act |-> sched'[Len(sched')]]))
 \* export of counterexamples (LockMode = "sharable" demonstration): the states in which the job file and its backup are
 \* both incomplete or a job has been executed twice, reached through states where neither is the case
-BadState == ~FileOrBackupComplete \/ ~AtMostOnce
+BadState == ~FileOrBackupComplete \/ ~AtMostOnce     \* (the demonstration configurations have no restart pattern)
 EmitBad == (Emit /\ BadState) =>
              PrintT(ToJson([c |-> CfgJson, sched |-> sched, fin |-> Proj,
                             bad |-> [files |-> ~FileOrBackupComplete, exec |-> ~AtMostOnce, assign |-> ~AssignedOnce]]))
